@@ -107,8 +107,11 @@ def invalid_element(tag, compressed, how, rng):
 
     def xb(x):
         return x.to_bytes(48, 'big') if which == 1 else x[1].to_bytes(48, 'big') + x[0].to_bytes(48, 'big')
-    if how == 'not-in-subgroup':
-        P = O.find_point1(rng) if which == 1 else O.find_point2(rng)
+    if how in ('not-in-subgroup', 'small-order'):
+        if how == 'small-order':
+            P, _ = O.small_order_point(which, rng)      # order 3 / 11 / 10177 (G1 curve), 13 / 23 / 2713 (twist)
+        else:
+            P = O.find_point1(rng) if which == 1 else O.find_point2(rng)
         b = bytearray(xb(P[0]))
         if compressed:
             b[0] |= 0x80 | (0x20 if rng.random() < 0.5 else 0)
@@ -265,7 +268,7 @@ def worker(sh):
             if len(data) < 6000:
                 pool.setdefault((kind, c), []).append((data, pts, ident))
             if pts and rng.random() < (0.5 if sh.quick else 0.8):
-                for how in ('not-in-subgroup', 'off-curve', 'isomorphic-curve', 'wrong-form', 'garbage'):
+                for how in ('not-in-subgroup', 'small-order', 'off-curve', 'isomorphic-curve', 'wrong-form', 'garbage'):
                     tag, off, n = rng.choice(pts)
                     if sh.index == 0 or rng.random() < 0.5:
                         bad = invalid_element(tag, bool(c), how, rng)
@@ -323,7 +326,7 @@ def worker(sh):
             A = items[(bi + 1) % len(items)][0]
             cand = pts if (len(pts) <= 6 or not sh.quick) else pts[:5] + [pts[-1]]
             for tag, off, n in cand:
-                how = rng.choice(['not-in-subgroup', 'off-curve', 'isomorphic-curve', 'garbage'])
+                how = rng.choice(['not-in-subgroup', 'small-order', 'off-curve', 'isomorphic-curve', 'garbage'])
                 bad = B[:off] + invalid_element(tag, bool(c), how, rng) + B[off + n:]
                 stage3.append('unmseq %s %d 3 1 %s 1 %s 1 %s' % (kind, c, A.hex(), bad.hex(), B.hex()))
                 meta3.append((kind, c, 'A,B-bad@%s%d,B' % (tag, off), ident))
